@@ -61,6 +61,22 @@ mod verif_driver {
                     Err(e) => json!({"rejected": format!("{e}")}),
                 }
             }
+            "roundtrip" => {
+                // what -g does (toml::to_string_pretty in store_config) followed by what a later run does (toml::from_str in load_config)
+                let cfg: Config = match toml::from_str(req["toml"].as_str().unwrap()) {
+                    Ok(c) => c,
+                    Err(e) => return json!({"err": format!("toml: {e}")}),
+                };
+                let dir = PathBuf::from(req["dir"].as_str().unwrap());
+                let path = dir.join("generated.toml");
+                if let Err(e) = config::store_config(&cfg, Some(&path)) {
+                    return json!({"rejected": format!("{e}")});
+                }
+                match config::load_config(Some(&path)) {
+                    Ok(back) => json!({"ok": {"same": back == cfg, "before": serde_json::to_value(&cfg).unwrap(), "after": serde_json::to_value(&back).unwrap()}}),
+                    Err(e) => json!({"rejected": format!("reload: {e}")}),
+                }
+            }
             "load_config" => {
                 // cwd-relative search for typeshare.toml (find_configuration_file) + load
                 std::env::set_current_dir(req["cwd"].as_str().unwrap()).unwrap();
